@@ -131,6 +131,32 @@ static void script_sync_phase(void)
 {
 }
 
+#ifdef STORE_RECV_CONTRACT
+/* Variant for the quick tier: rtr_receive_pdu is replaced by its contract (contracts/packets.h, proved by
+ * units/receive.c) in a client reading that additionally ties the delivered PDU to the script entry. */
+#define E(k) (g_sc.e[(k) < STORE_K ? (k) : 0])
+#define SCRIPT_MATCH(r, b, k)                                                                          \
+	((r) == E(k).ret &&                                                                            \
+	 ((r) != 0 ? 1                                                                                 \
+		   : (HP(b)->type == E(k).type && HP(b)->ver == E(k).ver &&                            \
+		      (E(k).type == SPEC_PDU_EOD                                                       \
+			       ? (((const struct pdu_end_of_data_v0 *)(b))->session_id == E(k).session && ((const struct pdu_end_of_data_v0 *)(b))->sn == E(k).sn && \
+				  (E(k).ver == 1 ? (((const struct pdu_end_of_data_v1 *)(b))->refresh_interval == E(k).refresh && \
+						    ((const struct pdu_end_of_data_v1 *)(b))->retry_interval == E(k).retry && \
+						    ((const struct pdu_end_of_data_v1 *)(b))->expire_interval == E(k).expire) \
+						 : 1))                                                 \
+			       : 1))))
+static int rtr_receive_pdu__store(struct rtr_socket *rtr_socket, void *pdu, const size_t pdu_len, const time_t timeout)
+__CPROVER_requires(__CPROVER_rw_ok(rtr_socket, sizeof(*rtr_socket)) && pdu_len >= 3248 && __CPROVER_rw_ok(pdu, 3248))
+__CPROVER_requires(rtr_socket->version <= 1 && __CPROVER_r_ok(rtr_socket->tr_socket, sizeof(struct tr_socket)))
+__CPROVER_requires(g_sc.pos < STORE_K)
+__CPROVER_ensures(RECV_POST(__CPROVER_return_value, rtr_socket, pdu, __CPROVER_old(rtr_socket->version),
+			    __CPROVER_old(rtr_socket->has_received_pdus), __CPROVER_old(rtr_socket->state)))
+__CPROVER_ensures(SCRIPT_MATCH(__CPROVER_return_value, pdu, __CPROVER_old(g_sc.pos)) && g_sc.pos == __CPROVER_old(g_sc.pos) + 1)
+__CPROVER_assigns(__CPROVER_object_upto(pdu, 3248), rtr_socket->version, rtr_socket->has_received_pdus, rtr_socket->state,
+		  __CPROVER_object_whole(&g_env), g_sc.pos);
+#endif
+
 /* record a prefix PDU of the script describes (independent of rtr_prefix_pdu_2_pfx_record) */
 static struct pfx_record rec_of(const struct sentry *e)
 {
@@ -270,6 +296,7 @@ void h_store(void)
 			 * or a transport outcome; the other terminal PDUs are left to the thorough tier */
 			ASSUME(re.ret_hdr != 8 || re.b[1] == SPEC_PDU_EOD);
 #endif
+#ifndef STORE_RECV_CONTRACT
 			g_sc.e[k].type = re.b[1];
 			g_sc.e[k].ver = re.b[0];
 			g_sc.e[k].session = (uint16_t)RAW_U16(re.b, 2);
@@ -277,6 +304,10 @@ void h_store(void)
 			g_sc.e[k].refresh = RAW_U32(re.b, 12);
 			g_sc.e[k].retry = RAW_U32(re.b, 16);
 			g_sc.e[k].expire = RAW_U32(re.b, 20);
+#else
+			/* the contract delivers only PDUs of the negotiated version (Error Reports excepted) */
+			ASSUME(e.ret != 0 || !(e.type == SPEC_PDU_IPV4 || e.type == SPEC_PDU_IPV6 || e.type == SPEC_PDU_ROUTER_KEY || e.type == SPEC_PDU_SERIAL_NOTIFY));
+#endif
 		}
 		g_raw[k] = re;
 	}
@@ -346,8 +377,13 @@ void h_store(void)
 		}
 	const struct sentry *t = &g_sc.e[term < STORE_K ? term : 0];
 	/* the terminal event is an End of Data the receive path accepts: read completely, right version, right size */
+#ifdef STORE_RECV_CONTRACT
+	/* contract variant: a delivered PDU is well-formed and of the negotiated version by RECV_POST */
+	const bool eod = t->ret == 0 && t->type == SPEC_PDU_EOD;
+#else
 	const struct rawentry *tr = &g_raw[term];
 	const bool eod = t->ret == 0 && tr->ret_pay >= 0 && t->type == SPEC_PDU_EOD && t->ver == g_pre.version && SPEC_PDU_LEN_OK(tr->b, RAW_LEN(tr->b));
+#endif
 	const bool eod_ok = eod && t->session == g_pre.session_id;
 	bool key_flags_ok = true;
 
